@@ -443,9 +443,24 @@ pub fn gen_target(rng: &mut Rng, net: &NetCfg, out: usize) -> Vec<f32> {
 pub fn gen_data(rng: &mut Rng, net: &NetCfg, n: usize) -> Data {
     let out = net.output_count().unwrap_or(1);
     let mut d = Data::default();
-    for _ in 0..n {
-        d.x.push(gen_input(rng, net));
-        d.y.push(gen_target(rng, net, out));
+    // One data set in seven contains "blank" samples (all-zero input, all-zero target):
+    // through bias-free layers they give an exactly zero loss and exactly zero gradients,
+    // the corner where shortcuts such as "nothing to update" hide. Another one in seven
+    // repeats a sample (identical per-sample results inside one group).
+    let blanks = rng.chance(0.15) && !net.objective.probabilistic() && !net.last_softmax();
+    let repeats = rng.chance(0.15);
+    for i in 0..n {
+        if blanks && rng.chance(0.45) {
+            d.x.push(vec![0.0; net.input.count()]);
+            d.y.push(vec![0.0; out]);
+        } else if repeats && i > 0 && rng.chance(0.4) {
+            let j = rng.below(i);
+            d.x.push(d.x[j].clone());
+            d.y.push(d.y[j].clone());
+        } else {
+            d.x.push(gen_input(rng, net));
+            d.y.push(gen_target(rng, net, out));
+        }
     }
     d
 }
